@@ -1011,7 +1011,12 @@ def pinned_layers():
         t = f.read()
     m = re.search(r"def namespaceLayers : List String :=\s*(\[.*?\])\n", t)
     k = re.search(r"def builtinKeys : List String :=\s*(\[.*?\])\n", t)
-    return (json.loads(m.group(1)) if m else []) + ["funcs"], (json.loads(k.group(1)) if k else [])
+    # when the pin is broken the generated file may lack the lists: fall back to the layer order / keys the
+    # property text implies, so that the failing-input search still runs
+    layers = json.loads(m.group(1)) if m else []
+    keys = json.loads(k.group(1)) if k else []
+    return (layers or ["builtins", "options", "object_names", "row_fields", "plugins", "variables"]) + ["funcs"], \
+        (keys or ["id", "count", "child_index", "this", "today", "now", "fake", "template"])
 
 
 def standard_func_names():
